@@ -39,9 +39,20 @@ class SeqResult:
         self.first, self.second = first, second
 
 
+class PowerSupplyCall:
+    """Stands for driver.power_supply(True) in a caller list: no frame, no answer expected."""
+    response = None
+    frame = None
+
+    def __repr__(self):
+        return "power_supply(True)"
+
+
 def build_cmd(kind, k):
     from dali.gear import general as gg, led
     from dali.address import GearShort
+    if kind == "pwr":
+        return PowerSupplyCall()
     a = GearShort(k)
     return {"num": lambda: gg.QueryActualLevel(a), "seq": lambda: gg.QueryActualLevel(a), "off": lambda: gg.Off(a), "twice": lambda: gg.SetScene(a, k),
             "dt": lambda: led.QueryFastFadeTime(a)}[kind]()
@@ -76,6 +87,11 @@ def make_hid_world(driver, kinds, exc_on, limit, ret, nloss=1, tail=0, start_seq
                 async def co(w, i=i, gen=gen):
                     gens[i] = gen()
                     return await w.driver.run_sequence(gens[i])
+            elif kinds[i] == "pwr":
+                async def co(w):
+                    if exc_via == "arg":
+                        return await w.driver.power_supply(True, exceptions=exc_on)
+                    return await w.driver.power_supply(True)
             elif exc_via == "arg":
                 async def co(w, c=c):
                     return await w.driver.send(c, exceptions=exc_on)
@@ -356,6 +372,13 @@ def shards(tier):
                     out.append(("loss", drv, kinds, True, limit, True, 2, 3))
         for limit in (1, 3):
             out.append(("loss", drv, ("num",), True, limit, True, 2, 2))       # loss, return, loss again
+        # the legacy power_supply() entry point (Tridonic) under loss, both ways of asking for exceptions / retry
+        if drv == "tridonic":
+            for kinds in (("pwr",), ("num", "pwr"), ("pwr", "num")):
+                for exc_on in (True, False):
+                    for via in ("attr", "arg"):
+                        out.append(("loss", drv, kinds, exc_on, None, True, 1, 2 if len(kinds) == 1 else 1, via))
+                out.append(("loss", drv, kinds, False, 1, False, 1, 1, "attr"))
         # the caller's wish expressed through the per-call argument, against a driver-wide default set the other way
         for kinds in (("num",), ("off",), ("num", "off")):
             for exc_on in (True, False):
